@@ -217,6 +217,8 @@ pub enum VOp {
     IntoBoxedSlice,
     FromIterIn(Vec<u32>),
     CollectIn(Vec<u32>),
+    /// collect Result/Option items, short-circuiting at index `stop` (if inside): mode 0 Result<Vec>, 1 Option<Vec>, 2 Result<Box<[T]>>, 3 Option<Box<[T]>>
+    CollectInShort(Vec<u32>, usize, u8),
     MacroList(Vec<u32>),
     MacroRepeat(u32, usize),
     WithCapacity(usize),
@@ -271,6 +273,7 @@ impl VOp {
             VOp::IntoBoxedSlice => "into_boxed_slice",
             VOp::FromIterIn(..) => "from_iter_in",
             VOp::CollectIn(..) => "collect_in",
+            VOp::CollectInShort(..) => "collect_in-result/option",
             VOp::MacroList(..) => "vec!-list",
             VOp::MacroRepeat(..) => "vec!-repeat",
             VOp::WithCapacity(..) => "with_capacity_in",
@@ -347,6 +350,13 @@ impl<T: El> Iterator for HugeIter<T> {
 }
 fn huge_iter<T: El>(keys: &[u32]) -> HugeIter<T> {
     HugeIter { keys: keys.to_vec().into_iter(), rest: (isize::MAX as usize) + 4096, _p: std::marker::PhantomData }
+}
+
+/// ownership of the boxed slice's elements and buffer moves into a vector of the same arena
+fn box_to_vec<'b, T>(bx: bumpalo::boxed::Box<'b, [T]>, b: &'b Bump) -> BVec<'b, T> {
+    let n = bx.len();
+    let raw = bumpalo::boxed::Box::into_raw(bx) as *mut T;
+    unsafe { BVec::from_raw_parts_in(raw, n, n, b) }
 }
 
 fn mkv<T: El>(keys: &[u32]) -> Vec<T> {
@@ -649,6 +659,32 @@ pub fn apply_b<'b, T: El>(b: &'b Bump, v: &mut BVec<'b, T>, op: &VOp, kept: &mut
             let old = std::mem::replace(v, n);
             drop(old);
             Res::Unit
+        }
+        VOp::CollectInShort(ks, stop, mode) => {
+            use bumpalo::collections::CollectIn;
+            let stop = *stop;
+            let items = kiter::<T>(ks, ks.len() % 2 == 0).enumerate();
+            let got: Result<BVec<'b, T>, u32> = match mode {
+                0 => items.map(|(i, x)| if i == stop { Err(x.key()) } else { Ok(x) }).collect_in::<Result<BVec<'b, T>, u32>>(b),
+                1 => items.map(|(i, x)| if i == stop { None } else { Some(x) }).collect_in::<Option<BVec<'b, T>>>(b).ok_or(0),
+                2 => items
+                    .map(|(i, x)| if i == stop { Err(x.key()) } else { Ok(x) })
+                    .collect_in::<Result<bumpalo::boxed::Box<'b, [T]>, u32>>(b)
+                    .map(|bx| box_to_vec(bx, b)),
+                _ => items
+                    .map(|(i, x)| if i == stop { None } else { Some(x) })
+                    .collect_in::<Option<bumpalo::boxed::Box<'b, [T]>>>(b)
+                    .map(|bx| box_to_vec(bx, b))
+                    .ok_or(0),
+            };
+            match got {
+                Ok(n) => {
+                    let old = std::mem::replace(v, n);
+                    drop(old);
+                    Res::Key(None)
+                }
+                Err(e) => Res::Key(Some(e)),
+            }
         }
         VOp::MacroList(ks) => {
             let n: BVec<'b, T> = match ks.len() {
@@ -1029,6 +1065,24 @@ pub fn apply_s<T: El>(v: &mut Vec<T>, op: &VOp, sboxes: &mut Vec<Box<[T]>>) -> R
             drop(old);
             Res::Unit
         }
+        VOp::CollectInShort(ks, stop, mode) => {
+            let stop = *stop;
+            let items = kiter::<T>(ks, ks.len() % 2 == 0).enumerate();
+            let got: Result<Vec<T>, u32> = match mode {
+                0 => items.map(|(i, x)| if i == stop { Err(x.key()) } else { Ok(x) }).collect::<Result<Vec<T>, u32>>(),
+                1 => items.map(|(i, x)| if i == stop { None } else { Some(x) }).collect::<Option<Vec<T>>>().ok_or(0),
+                2 => items.map(|(i, x)| if i == stop { Err(x.key()) } else { Ok(x) }).collect::<Result<Box<[T]>, u32>>().map(|bx| bx.into_vec()),
+                _ => items.map(|(i, x)| if i == stop { None } else { Some(x) }).collect::<Option<Box<[T]>>>().map(|bx| bx.into_vec()).ok_or(0),
+            };
+            match got {
+                Ok(n) => {
+                    let old = std::mem::replace(v, n);
+                    drop(old);
+                    Res::Key(None)
+                }
+                Err(e) => Res::Key(Some(e)),
+            }
+        }
         VOp::MacroList(ks) => {
             let n: Vec<T> = ks.iter().take(3).map(|k| T::mk(*k)).collect();
             let old = std::mem::replace(v, n);
@@ -1227,7 +1281,12 @@ pub fn gen_op<T: El>(rng: &mut Rng, len: usize) -> VOp {
         }
         52 => VOp::IntoBumpSlice(rng.chance(1, 2)),
         53 => VOp::IntoBoxedSlice,
-        54 => match rng.below(5) {
+        54 => match rng.below(7) {
+            5 | 6 => {
+                let ks = gen_keys(rng, small);
+                let stop = rng.below(ks.len() + 3);
+                VOp::CollectInShort(ks, stop, rng.below(4) as u8)
+            }
             0 => VOp::FromIterIn(gen_keys(rng, small)),
             1 => VOp::CollectIn(gen_keys(rng, small)),
             2 => VOp::MacroList(gen_keys(rng, 3)),
